@@ -59,6 +59,9 @@ func configs07(tier string) []xplore.Config {
 		{{"t1", []wop{{"del", "a/b"}}}, {"t2", []wop{{"del", "a"}}}},
 		{{"t1", []wop{{"upd", "a/c"}}}, {"t2", []wop{{"remove", ""}}}},
 		{{"t1", []wop{{"remove", ""}}}, {"t2", []wop{{"upd", "a/b"}, {"upd", "a/b"}}}},
+		// a target that joins the collector AFTER the subscription was made (t3 is
+		// always authorised): an all-targets subscription covers it from then on
+		{{"t3", []wop{{"add", ""}, {"upd", "a/b"}, {"upd", "a/c"}}}, {"t1", []wop{{"upd", "a/b"}}}},
 	}
 	for _, a1 := range []bool{false, true} {
 		for _, a2 := range []bool{false, true} {
@@ -71,6 +74,9 @@ func configs07(tier string) []xplore.Config {
 							ws = wscripts
 						}
 						for wi, w := range ws {
+							if wi == 4 && tg != "*" {
+								continue // the late-joining target only concerns all-targets subscriptions
+							}
 							out = append(out, xplore.Config{Name: fmt.Sprintf("acl{t1:%v t2:%v newRPCACLfails:%v} %s writers#%d", a1, a2, fail, sp, wi), Bound: bound,
 								Data: cfg07{a1, a2, fail, sp, w}})
 						}
@@ -97,7 +103,7 @@ func run07(cfg xplore.Config, ch vrt.Chooser, trace bool) (xplore.Outcome, *vrt.
 	d := cfg.Data.(cfg07)
 	var out xplore.Outcome
 	res := vrt.Run(ch, vrt.Options{Reverse: cfg.Reverse, Trace: trace}, func() {
-		a := &acl{allowed: map[string]bool{"t1": d.allowT1, "t2": d.allowT2}, fail: d.fail}
+		a := &acl{allowed: map[string]bool{"t1": d.allowT1, "t2": d.allowT2, "t3": true}, fail: d.fail}
 		w := newWorld([]string{"t1", "t2"}, subscribe.WithACL(a))
 		setupInitial(w)
 		st := newStream(d.sub)
